@@ -11,7 +11,7 @@ open PdfVerif PdfVerif.Convert PdfVerif.Xml
 
 mutual
 theorem text_item (i : Item) : (textWrites i).flatten = specTextItem i := by
-  cases i <;> simp [textWrites, specTextItem, text_items]
+  cases i <;> simp [textWrites, specTextItem, text_items, Gen.ConvertXml.t_text_box_end]
 theorem text_items (is : List Item) : (textWritesL is).flatten = specTextL is := by
   cases is with
   | nil => simp [textWritesL, specTextL]
@@ -26,7 +26,7 @@ theorem C11_text (ps : List Page) : sinkText (textDocWrites ps) = specText ps :=
   | cons p ps ih =>
     simp only [sinkText, textDocWrites, specText, List.flatMap_cons, List.flatten_append] at ih ⊢
     rw [ih]
-    simp [textPageWrites, specTextPage, text_items]
+    simp [textPageWrites, specTextPage, text_items, Gen.ConvertXml.t_text_page_end]
 
 
 example : sinkText (textDocWrites
@@ -163,7 +163,7 @@ theorem C11_xml_wf (strip : Bool) (codec : Option Str) (ps : List Page) (hc : Co
 /-- non-vacuity: a page with a figure whose name needs every kind of escape, a glyph whose font name and
 text contain control characters (strip_control on), a vertical text box and a layout group -/
 def demoPage : Page := ⟨['1'], ['0', ',', '0'], ['0'],
-  [.figure ['a', '"', '<', '&', '\t', '\x01'] ['1'] [.image ['2'] ['3']],
+  [.figure ['a', '"', '<', '&', '\t', '\x01'] ['1'] [.image ['2'] ['3'] none, .image ['2'] ['3'] (some ['x', '\x02', '&', '.', 'b', 'm', 'p'])],
    .textbox ['0'] ['4'] true [.textline ['5'] [.char ['F', '\x0b', '\''] ['6'] ['G'] ['N'] ['7'] ['<', '\r', '\x00'],
                                              .anno ['\n']]],
    .curve ['0'] ['8'] ['9']],
